@@ -848,7 +848,7 @@ fn main() {
             judge(acc, idx, || format!("Mesh2D x={:?} y={:?} nvars={} pattern={}", xn, yn, nvars, pat), || mesh2d_case(&xn, &yn, nvars, pat, true));
         },
     );
-    let depth = ctx.pick(4, 5);
+    let depth = ctx.pick(4, 7);
     let mk = |nx: usize, ny: usize| St { nx, ny, hist: vec![], model: vec![vec![vec![0.0; NV]; ny]; nx] };
     let inits = vec![mk(2, 3), mk(3, 2)];
     explore(&ctx, "Mesh2D write histories (2x3, 3x2)", inits.clone(), BfsOpts { max_depth: depth, state_cap: ctx.pick(500_000, 10_000_000) });
@@ -857,7 +857,7 @@ fn main() {
     }
     let nodes1 = vec![-1.0, 0.0, 0.5, 2.5];
     let inits1 = vec![St1 { nodes: nodes1.clone(), hist: vec![], model: vec![vec![0.0; NV]; nodes1.len()] }];
-    let d1 = ctx.pick(3, 4);
+    let d1 = ctx.pick(3, 6);
     explore(&ctx, "Mesh1D query/write histories (4 nodes incl. x = 0)", inits1.clone(), BfsOpts { max_depth: d1, state_cap: ctx.pick(300_000, 5_000_000) });
     if ctx.quick() {
         crosscheck_stateright(&ctx, "Mesh1D query/write histories (4 nodes incl. x = 0)", inits1, d1);
